@@ -50,6 +50,7 @@ package throttler
 //@   requires [recv] t != nil
 //@   ghost var gd int = 0
 //@   ghost update before @time.After: gd = d
+//@   assert after @def:d: [waits-the-delay-of-the-current-level] d == t.delays[t.delayFactor]
 //@   ensures [bound] _now - old(_now) <= max(gd, 0) + _slack
 //@   ensures [immediate] gd == 0 ==> (result == nil && _now == old(_now))
 //
